@@ -4,6 +4,7 @@ import (
 	"fmt"
 	"os"
 	"strings"
+	"time"
 
 	"verif/mc"
 	"verif/proj"
@@ -17,6 +18,8 @@ type c11ClsSpec struct {
 	Class string `json:"class"` // till | year | texsum
 	First int    `json:"first"` // till: index of the first tillage anchor
 	PTF   int    `json:"ptf,omitempty"`
+	Year  int    `json:"year,omitempty"`  // startday: every first simulated day of this month ...
+	Month int    `json:"month,omitempty"` // ... of this year
 }
 
 // two crops: spring wheat 2001, winter wheat 2001/02
@@ -42,6 +45,12 @@ func c11ClsSpecs() []c11ClsSpec {
 		out = append(out, c11ClsSpec{Class: "till", First: i})
 	}
 	out = append(out, c11ClsSpec{Class: "year"})
+	// the start-year rule on every first simulated day of a leap year, a common year and a year late in the calendar range
+	for _, y := range []int{1996, 2003, 2044} {
+		for m := 1; m <= 12; m++ {
+			out = append(out, c11ClsSpec{Class: "startday", Year: y, Month: m})
+		}
+	}
 	for ptf := 1; ptf <= 4; ptf++ {
 		out = append(out, c11ClsSpec{Class: "texsum", PTF: ptf})
 	}
@@ -132,6 +141,17 @@ func c11ClsRun(sp c11ClsSpec, c *mc.Ctx) {
 		for off := -3; off <= 3; off++ {
 			r := proj.Run(root, p.Args(root, fmt.Sprintf("StartYear=%d", 2001+off)), nil)
 			judge(fmt.Sprintf("StartYear=%d with the first harvest in 2001", 2001+off), off != 0, off == 0, r)
+		}
+	case "startday":
+		for d := time.Date(sp.Year, time.Month(sp.Month), 1, 0, 0, 0, 0, time.UTC); int(d.Month()) == sp.Month; d = d.AddDate(0, 0, 1) {
+			iso := d.Format("2006-01-02")
+			p := e1Project(e1Base{Soil: "loam12", GW: 99, InitW: 0.6, InitN: 30, ET: 3, Start: iso}, 6)
+			p.Weather = seasonWeather(proj.D(p.WeatherStart), 20)
+			p.Write(root)
+			for off := -1; off <= 1; off++ {
+				r := proj.Run(root, p.Args(root, fmt.Sprintf("StartYear=%d", sp.Year+off)), nil)
+				judge(fmt.Sprintf("first harvest (first simulated day) %s with StartYear=%d", iso, sp.Year+off), off != 0, off == 0, r)
+			}
 		}
 	case "texsum":
 		for _, sum := range []int{60, 80, 90, 94, 96, 97, 99, 100, 101, 103, 104, 106, 110, 120, 150} {
